@@ -242,6 +242,9 @@ func buildIndex(d Dialect, mi *Index, cols map[string]*schema.Column) *schema.In
 		if mp.NullsFirst != nil {
 			p.AddAttrs(&postgres.IndexColumnProperty{NullsFirst: *mp.NullsFirst, NullsLast: !*mp.NullsFirst})
 		}
+		if mp.Ops != "" {
+			p.AddAttrs(&postgres.IndexOpClass{Name: mp.Ops})
+		}
 		idx.AddParts(p)
 	}
 	if mi.Comment != "" {
